@@ -426,14 +426,14 @@ def maybe_moved(rnd, scn, p=0.1):
     return scn
 
 
-def add_lifecycles(rnd, scn, p_derived=0.08, p_entry=0.12, p_used=0.06, p_prior=0.0):
+def add_lifecycles(rnd, scn, p_derived=0.08, p_entry=0.12, p_used=0.06, p_prior=0.0, p_sibling=0.05):
     """Object life cycles every Engine-A workload shares (drawn from their own sub-stream, so the
     scenario a property's generator produced is left as it is): the Device handed to the solver is
     derived from the meshed one (copy / deep copy / pickled copy / identity transform + re-mesh), and
     the run is started through the convenience entry point tdgl.solve() instead of TDGLSolver()."""
     if isinstance(scn, dict) and isinstance(scn.get("base"), dict):
         # groups (C11): the life cycle belongs to the physics scenario every member executes
-        add_lifecycles(rnd, scn["base"], p_derived, p_entry, p_used, p_prior)
+        add_lifecycles(rnd, scn["base"], p_derived, p_entry, p_used, p_prior, p_sibling)
         return scn
     if not isinstance(scn, dict) or scn.get("physics") != "real" or "device" not in scn:
         return scn
@@ -446,6 +446,29 @@ def add_lifecycles(rnd, scn, p_derived=0.08, p_entry=0.12, p_used=0.06, p_prior=
         fu = scn["options"].get("field_units", "mT")
         scn["device_used_before"] = {"steps": rnd.choice([2, 3]), "B": r3(0.2 * FIELD_FACTOR[fu]), "terminal_psi": rnd.choice(["zero", "none"])}
     if rnd.random() < p_prior and not scn.get("options_late") and not scn.get("reload_phase") and not scn.get("seed_phase"):
-        # the SolverOptions object was used before, untouched since, on a variant of the device
-        scn["options_prior_use"] = {"variant": rnd.choice(["no-terminals", "no-terminals", "same", "no-holes"]), "steps": rnd.choice([2, 3])}
+        # the SolverOptions object has a history: it was used before on a variant of the device and is
+        # handed over untouched, or it was constructed (and maybe used) with other values of some fields
+        # which the caller then assigned, one attribute at a time, to the values of this run
+        o = scn["options"]
+        pr = {"variant": rnd.choice(["no-terminals", "no-terminals", "same", "no-holes"]), "steps": rnd.choice([2, 3]), "run": rnd.random() < 0.7, "changed": {}}
+        if rnd.random() < 0.6:
+            for field in rnd.sample(["adaptive", "dt_max", "dt_init", "save_every", "terminal_psi", "adaptive_window", "max_solve_retries"], rnd.choice([1, 1, 2, 3])):
+                if field == "adaptive":
+                    pr["changed"][field] = not o.get("adaptive", True)
+                elif field == "dt_max":
+                    pr["changed"][field] = r3(max(o.get("dt_max", 0.1), o["dt_init"]) * rnd.choice([10.0, 100.0]))
+                elif field == "dt_init":
+                    pr["changed"][field] = r3(o["dt_init"] * rnd.choice([0.5, 0.1]))
+                elif field == "save_every":
+                    pr["changed"][field] = rnd.choice([1, 3, 50])
+                elif field == "terminal_psi":
+                    pr["changed"][field] = rnd.choice([None, 0.0, 0.5])
+                elif field == "adaptive_window":
+                    pr["changed"][field] = rnd.choice([1, 4, 15])
+                else:
+                    pr["changed"][field] = rnd.choice([0, 2, 7])
+        scn["options_prior_use"] = pr
+    if rnd.random() < p_sibling and not scn.get("sibling"):
+        # a second solver alive on the same Device with another applied field (see maybe_sibling)
+        maybe_sibling(rnd, scn, 1.0)
     return scn
